@@ -92,8 +92,8 @@ class CFG:
             body = self._seq(st.body, t, brk=nxt, cont=t)
             self.edges.append(Edge(t, body))
             self.edges.append(Edge(t, after))
-            if isinstance(st.iter, (ast.List, ast.Tuple)) and st.iter.elts and \
-                    not any(isinstance(e, ast.Starred) for e in st.iter.elts):
+            if (isinstance(st.iter, (ast.List, ast.Tuple)) and st.iter.elts and
+                    not any(isinstance(e, ast.Starred) for e in st.iter.elts)) or self._returns_fixed_tuple(st.iter):
                 # a loop over a non-empty literal runs at least once: separate entry node without the skip edge
                 first = Node(len(self.nodes), "iter", st)
                 self.nodes.append(first)
@@ -144,6 +144,31 @@ class CFG:
         return n
 
     # ---------------------------------------------------------------- queries
+    def _returns_fixed_tuple(self, e: ast.expr) -> bool:
+        """a call of a repository function whose return annotation is a tuple of fixed, non-zero length
+        (``-> tuple['Rectangle', 'Rectangle']``): iterating over its result runs the loop body at least once"""
+        if not isinstance(e, ast.Call) or self.model is None:
+            return False
+        try:
+            cands = self.model.resolve_call(self.fi, e)
+        except Exception:
+            return False
+        if not cands:
+            return False
+        for h in cands:
+            r = h.node.returns
+            if isinstance(r, ast.Constant) and isinstance(r.value, str):
+                try:
+                    r = ast.parse(r.value, mode="eval").body
+                except SyntaxError:
+                    return False
+            if not (isinstance(r, ast.Subscript) and isinstance(r.value, ast.Name) and r.value.id in ("tuple", "Tuple")):
+                return False
+            elts = r.slice.elts if isinstance(r.slice, ast.Tuple) else [r.slice]
+            if not elts or any(isinstance(x, ast.Constant) and x.value is Ellipsis for x in elts):
+                return False
+        return True
+
     def stmt_nodes(self, include_dead: bool = False) -> Iterable[Node]:
         """statement nodes; dead code (no path from the entry, e.g. a return after an if whose arms both return) is
         left out: nothing can be demanded of it and nothing it does matters"""
